@@ -3,7 +3,8 @@
    part 2 is about the option records REGENERATED from cli.FLAG_TABLE on every run (gen/Gen_Flags.v). *)
 From Coq Require Import Permutation.
 From Miller Require Import Base.Bytes Base.Record C02.Model C02.Spec C02.Proofs C02.ProofsE C02.ProofsF.
-From Miller Require Import gen.Gen_Flags C02.FlagSpec C02.FlagProofs C02.FlagExtra.
+From Miller Require Import C02.Codecs.
+From Miller Require Import gen.Gen_Flags C02.FlagSpec C02.FlagProofs C02.FlagExtra C02.Mlrrc C02.MlrrcTable.
 Open Scope char_scope.
 
 (* ---- nested -> flat -> nested is the identity (property clause 2) ----
@@ -156,6 +157,44 @@ Theorem C02_conv_there_and_back :
 Proof. exact conv_there_and_back. Qed.
 Print Assumptions C02_conv_there_and_back.
 
+(* ---- the same through the REAL codec models: C01's reader/writer transliterations (CSV, TSV, DKVP, NIDX, XTAB, PPRINT,
+   PPRINT --barred, CSVlite, JSON, JSON Lines with their default separators) and C01's round-trip theorems, imported
+   unchanged.  The domain of a conversion is the intersection of the formats' own domain predicates ([cdomain]). ---- *)
+Theorem C02_codecs_roundtrip :
+  forall F x, cdomain F x = true -> cread F (cwrite F x) = Some x.
+Proof. exact codec_roundtrip. Qed.
+Print Assumptions C02_codecs_roundtrip.
+
+Theorem C02_codecs_conv_via :
+  forall A C B x, cdomain A x && cdomain C x = true ->
+  bind (cconv A C (cwrite A x)) (cconv C B) = cconv A B (cwrite A x).
+Proof. exact codecs_conv_via. Qed.
+Print Assumptions C02_codecs_conv_via.
+
+Theorem C02_codecs_there_and_back :
+  forall A B x, cdomain A x && cdomain B x = true ->
+  bind (cconv A B (cwrite A x)) (cconv B A) = Some (cwrite A x).
+Proof. exact codecs_there_and_back. Qed.
+Print Assumptions C02_codecs_there_and_back.
+
+(* any number of intermediate formats: the result is what B's writer prints for the records, so only the syntax changed *)
+Theorem C02_codecs_conv_chain :
+  forall mids A B x, cdomain A x = true -> forallb (fun C => cdomain C x) mids = true ->
+  conv_chain A mids B (cwrite A x) = Some (cwrite B x).
+Proof. exact codecs_conv_chain. Qed.
+Print Assumptions C02_codecs_conv_chain.
+
+Example C02_codecs_nonvacuous :
+  forallb (fun F => cdomain F x_example) [FCsv; FTsv; FDkvp; FXtab; FPprint; FPprintBarred; FCsvlite; FJson; FJsonl] = true
+  /\ forallb (fun F => cdomain F x_positional) [FCsv; FTsv; FDkvp; FNidx; FXtab; FPprint; FCsvlite; FJson] = true
+  /\ conv_chain FCsv [FJson; FXtab; FPprintBarred; FTsv] FDkvp (cwrite FCsv x_example) = Some (B "id=1,name=pan,v=0xff
+id=2,name=wye,v=1.500
+")
+  /\ conv_chain FNidx [FCsv] FNidx (cwrite FNidx x_positional) = Some (B "a 0x1F
+b +5
+").
+Proof. exact examples_in_domain. Qed.
+
 (* ================= part 2: flag spellings, over the table REGENERATED from cli.FLAG_TABLE =================
    [effect argv] is every field of TReaderOptions/TWriterOptions after parsing argv like ParseCommandLine does and
    applying FinalizeReaderOptions/FinalizeWriterOptions (plus DecideFinalFlatten/Unflatten), as dumped by
@@ -172,23 +211,22 @@ Theorem C02_keystroke_savers_equal_expansion :
 Proof. exact keystroke_savers_equal_expansion. Qed.
 Print Assumptions C02_keystroke_savers_equal_expansion.
 
-(* the same with a separator flag given BEFORE the keystroke saver: holds except for the --X2t / --X2n closures that,
-   unlike --otsv / --onidx, do not assign OFS (finding flag-spelling:--ofs-before-X2t-X2n) *)
-Theorem C02_keystroke_savers_prefix_partial :
-  forall s e p, In s all_spellings -> expansion_of_name s = Some e -> ~ In s ks_prefix_sensitive -> In p ctx_prefixes ->
+(* the same with a separator flag given BEFORE the keystroke saver: every spelling, no exception (the --X2t / --X2n /
+   --tsv / --nidx closures were repaired in /repo to assign OFS as --otsv / --onidx do) *)
+Theorem C02_keystroke_savers_prefix :
+  forall s e p, In s all_spellings -> expansion_of_name s = Some e -> In p ctx_prefixes ->
   equivalent_in_context (p ++ [s]) (p ++ e) [].
-Proof. exact keystroke_savers_prefix_partial. Qed.
-Print Assumptions C02_keystroke_savers_prefix_partial.
+Proof. exact keystroke_savers_prefix. Qed.
+Print Assumptions C02_keystroke_savers_prefix.
 
-Theorem C02_keystroke_savers_prefix_refuted :
-  exists s e p, In s all_spellings /\ expansion_of_name s = Some e /\ In p ctx_prefixes /\ equiv_pre p [s] e = false.
-Proof. exact keystroke_savers_prefix_refuted. Qed.
-Print Assumptions C02_keystroke_savers_prefix_refuted.
-
-(* the exclusion list is exact: each listed spelling differs under the prefix --ofs and under no other prefix *)
-Theorem C02_keystroke_prefix_sensitive_exact : ks_prefix_sensitive_exact = true.
-Proof. exact ks_prefix_sensitive_exact_true. Qed.
-Print Assumptions C02_keystroke_prefix_sensitive_exact.
+(* regression probe: the 16 spellings of the former finding agree with their expansion after --ofs ";" *)
+Theorem C02_keystroke_former_prefix_sensitive_fixed :
+  forallb (fun s => mem s keystroke_spellings
+                    && match expansion_of_name s with Some e => equiv_pre [B "--ofs"; B ";"] [s] e | None => false end)
+    [ B "--t2t"; B "--c2t"; B "--j2t"; B "--l2t"; B "--m2t"; B "--n2t"; B "--p2t"; B "--x2t"; B "--y2t";
+      B "--n2n"; B "--j2n"; B "--l2n"; B "--m2n"; B "--p2n"; B "--x2n"; B "--y2n" ] = true.
+Proof. exact ks_former_prefix_sensitive_fixed. Qed.
+Print Assumptions C02_keystroke_former_prefix_sensitive_fixed.
 
 (* non-vacuity of the above: the section is not empty, every flag in it has a documented expansion, the whole
    documented 10 x 10 matrix (markdown-to-markdown aside) is present in the table *)
@@ -206,14 +244,14 @@ Theorem C02_io_pairs_equal :
 Proof. exact io_pairs_equal. Qed.
 Print Assumptions C02_io_pairs_equal.
 
-(* -i X = --iX, -o X = --oX, --io X = --X for the documented format names and every key of defaultFSes *)
-Theorem C02_io_forms_equal_partial :
+(* -i X = --iX, -o X = --oX, --io X = --X for the documented format names, every key of defaultFSes, and md / jsonl *)
+Theorem C02_io_forms_equal :
   forall x t, In x format_names -> In t ctx_tails ->
      (In (pre "--i" x) all_spellings -> equivalent_in_context [B "-i"; x] [pre "--i" x] t)
   /\ (In (pre "--o" x) all_spellings -> equivalent_in_context [B "-o"; x] [pre "--o" x] t)
   /\ (In (pre "--" x) all_spellings -> equivalent_in_context [B "--io"; x] [pre "--" x] t).
 Proof. exact io_forms_equal. Qed.
-Print Assumptions C02_io_forms_equal_partial.
+Print Assumptions C02_io_forms_equal.
 
 Theorem C02_io_forms_domain :
   forall x, In x core_format_names ->
@@ -221,16 +259,18 @@ Theorem C02_io_forms_domain :
 Proof. exact io_forms_domain. Qed.
 Print Assumptions C02_io_forms_domain.
 
-(* partial because: --ijsonl / --jsonl / --md exist, yet `-i jsonl`, `--io jsonl`, `--io md` are rejected *)
-Theorem C02_io_forms_names_refuted :
+(* md and jsonl (long flags --imd/--omd/--md, --ijsonl/--ojsonl/--jsonl) are accepted and covered by the theorem above *)
+Theorem C02_io_forms_names_fixed :
   has_spelling (B "--ijsonl") = true /\ has_spelling (B "--jsonl") = true /\ has_spelling (B "--md") = true
+  /\ has_spelling (B "--ojsonl") = true /\ has_spelling (B "--imd") = true /\ has_spelling (B "--omd") = true
   /\ is_some (lookup_argv [B "-i"; B "jsonl"]) = true /\ is_some (lookup_argv [B "--io"; B "jsonl"]) = true
   /\ is_some (lookup_argv [B "--io"; B "md"]) = true
-  /\ io_form_check (B "-i") "--i" (B "jsonl") = false
-  /\ io_form_check (B "--io") "--" (B "jsonl") = false
-  /\ io_form_check (B "--io") "--" (B "md") = false.
-Proof. exact io_forms_names_refuted. Qed.
-Print Assumptions C02_io_forms_names_refuted.
+  /\ is_some (effect [B "-i"; B "jsonl"]) = true /\ is_some (effect [B "--io"; B "jsonl"]) = true
+  /\ is_some (effect [B "--io"; B "md"]) = true
+  /\ forallb (fun x => io_form_check (B "-i") "--i" x && io_form_check (B "-o") "--o" x && io_form_check (B "--io") "--" x)
+             extra_format_names = true.
+Proof. exact io_forms_names_fixed. Qed.
+Print Assumptions C02_io_forms_names_fixed.
 
 (* the alias tables are the documented ones, and every alias has exactly the effect of its literal under every
    separator flag *)
@@ -263,6 +303,70 @@ Theorem C02_legacy_flags_are_noops :
   section_names legacy_section <> [] /\ forall n, In n (section_names legacy_section) -> identical_effect [n] [].
 Proof. exact legacy_flags_are_noops. Qed.
 Print Assumptions C02_legacy_flags_are_noops.
+
+(* ================= .mlrrc (pkg/climain/mlrcli_mlrrc.go, transliterated in C02.Mlrrc) =================
+   A flag with its argument tokens written on one line -- with or without the leading "--", surrounded by blanks,
+   followed by a comment -- is read as exactly the command-line tokens; FLAG_TABLE.Parse is then applied to them as for
+   the command line, so the line has the effect of the flag.  For ALL token lists (any flag, any arguments): *)
+Theorem C02_mlrrc_line_with_dashes :
+  forall (flag : bytes) (args : list bytes),
+  forallb tok_ok (("-" :: flag) :: args) = true -> mem ("-" :: flag) refused = false ->
+  handle_line (join_sp (("-" :: flag) :: args)) = RFlags (("-" :: flag) :: args).
+Proof. exact line_with_dashes. Qed.
+Print Assumptions C02_mlrrc_line_with_dashes.
+
+Theorem C02_mlrrc_line_without_dashes :
+  forall (name : bytes) (args : list bytes),
+  forallb tok_ok (("-" :: "-" :: name) :: args) = true -> (match name with "-" :: _ => false | _ => true end) = true ->
+  mem ("-" :: "-" :: name) refused = false ->
+  handle_line (join_sp (name :: args)) = RFlags (("-" :: "-" :: name) :: args).
+Proof. exact line_without_dashes. Qed.
+Print Assumptions C02_mlrrc_line_without_dashes.
+
+(* over the regenerated table: every spelling (alone / with an argument, dashed / undashed, with blanks and a comment)
+   is read as the command-line tokens, except the flags that .mlrrc refuses (code execution, --profile) *)
+Theorem C02_mlrrc_lines_over_flag_table :
+  forall s, In s all_spellings -> rc_spelling_ok s = true.
+Proof. exact rc_table_spec. Qed.
+Print Assumptions C02_mlrrc_lines_over_flag_table.
+
+(* MLRRC=__none__ disables all files; $MLRRC naming a readable file replaces them; otherwise ~/.mlrrc, then
+   $XDG_CONFIG_HOME/miller/mlrrc, then ./.mlrrc, and the command line last (later flags override earlier ones) *)
+Theorem C02_mlrrc_none :
+  forall profile e cmdline, e_mlrrc e = Some (B "__none__") -> effective_argv false profile e cmdline = Some (List.concat cmdline).
+Proof. exact mlrrc_none. Qed.
+Print Assumptions C02_mlrrc_none.
+
+Theorem C02_mlrrc_precedence :
+  forall profile e cmdline h x c,
+  e_mlrrc e = None -> load_opt profile (f_home e) = Some h -> load_opt profile (f_xdg e) = Some x -> load_opt profile (f_cwd e) = Some c ->
+  effective_argv false profile e cmdline = Some (List.concat h ++ List.concat x ++ List.concat c ++ List.concat cmdline).
+Proof. exact mlrrc_precedence. Qed.
+Print Assumptions C02_mlrrc_precedence.
+
+Theorem C02_mlrrc_env_only :
+  forall profile e cmdline v t rc,
+  e_mlrrc e = Some v -> v <> B "__none__" -> f_mlrrc e = Some t -> rc_file profile t = Some rc ->
+  effective_argv false profile e cmdline = Some (List.concat rc ++ List.concat cmdline).
+Proof. exact mlrrc_env_only. Qed.
+Print Assumptions C02_mlrrc_env_only.
+
+Example C02_mlrrc_nonvacuous :
+  rc_file [] (B "-i csv
+ofs semicolon") = Some [[B "-i"; B "csv"]; [B "--ofs"; B "semicolon"]]
+  /\ rc_file [] (B "prepipe rm -rf /
+") = None
+  /\ rc_file (B "work") (B "icsv
+[home]
+ojson
+[ work ]
+oxtab
+") = Some [[B "--icsv"]; [B "--oxtab"]]
+  /\ effective_argv false [] (RcEnv None None (Some (B "ojson
+")) None (Some (B "oxtab
+"))) [[B "--icsv"]] = Some [B "--ojson"; B "--oxtab"; B "--icsv"]
+  /\ forallb (fun s => mem s all_spellings) [B "--prepipe"; B "--prepipex"; B "--load"; B "--mload"] = true.
+Proof. vm_compute. repeat split; reflexivity. Qed.
 
 (* ---- non-vacuity ---- *)
 Example C02_nonvacuous :
